@@ -20,8 +20,7 @@ Definition agree (fx fy fz : bool) (st : static) (str0 : strategy) (o0 : obs) (t
   && forall2b obs_eqb (map snd (trace fx fy fz st (init (cfg st) str0) (map fst tr))) (map snd tr).
 
 (* clause layout: agree, bound, fallback, inforce, failing, recovery, nopanic.
-   The model is the REPAIRED behaviour (C09_clamp.diff + C09_reclamp_on_schema_update.diff +
-   C09_type_change_drops_remote_quota.diff). *)
+   The model is the REPAIRED behaviour (C09_clamp.diff + C09_reclamp_on_schema_update.diff + 06780c0). *)
 Definition eval (c : case) : list bool :=
   match c with Case st str0 o0 tr => agree true true true st str0 o0 tr :: case_ok st str0 o0 tr end.
 
